@@ -151,6 +151,31 @@ pub fn eval(payload: &str) -> String {
     run_vm(cfg, &bytes)
 }
 
+/// Family `vm2`: the same program under strict and permissive error mode.
+pub fn eval2(payload: &str) -> String {
+    let (cfg, hexs) = payload.split_once(' ').expect("cfg bytes");
+    let bytes = util::hex_to_bytes(hexs);
+    let base: Vec<&str> = cfg.split(',').collect();
+    let strict = format!("{},{},{},{},{},0", base[0], base[1], base[2], base[3], base[4]);
+    let perm = format!("{},{},{},{},{},1", base[0], base[1], base[2], base[3], base[4]);
+    format!("{} ### {}", run_vm(&strict, &bytes), run_vm(&perm, &bytes))
+}
+
+pub fn generate2(seed: u64, n: usize, _tier: &str, emit: &mut dyn FnMut(String)) {
+    for f in FIXED {
+        emit(format!("30000000,10,50,250,394,0 {f}"));
+        emit(format!("300,2,2,5,64,0 {f}"));
+    }
+    for idx in 0..n {
+        let mut r = Rng::for_case(seed, "vm2", idx);
+        // bias towards bad jumps / underflows / gas exhaustion
+        let flavour = [2usize, 2, 2, 0, 3][r.below(5)];
+        let prog = gen_program(&mut r, flavour);
+        let cfg = gen_cfg(&mut r, flavour);
+        emit(format!("{cfg} {}", util::bytes_to_hex(&prog)));
+    }
+}
+
 // ------------------------------------------------------------------------------ generator
 
 pub struct Asm {
@@ -183,6 +208,13 @@ impl Asm {
     }
     pub fn push_label(&mut self, l: usize) {
         self.bytes.push(0x61);
+        self.fixups.push((self.bytes.len(), l));
+        self.bytes.extend([0, 0]);
+    }
+    /// PUSH5 of `2^32 + address of label` (a target whose low 32 bits name a JUMPDEST)
+    pub fn push_label_high(&mut self, l: usize) {
+        self.bytes.push(0x64);
+        self.bytes.extend([1, 0, 0]);
         self.fixups.push((self.bytes.len(), l));
         self.bytes.extend([0, 0]);
     }
@@ -318,7 +350,7 @@ pub fn gen_program(r: &mut Rng, flavour: usize) -> Vec<u8> {
                 match r.below(6) {
                     0 => a.push_u(0xffff),                         // out of range
                     1 => a.push_u(1),                              // not a JUMPDEST (probably)
-                    2 => { a.push_word(&[1, 0, 0, 0, 0]); }        // >= 2^32
+                    2 => { if target > 0 && target < nblocks { a.push_label_high(target) } else { a.push_word(&[1, 0, 0, 0, 0]) } } // >= 2^32
                     3 => { let w = hostile_word(r); a.push_word(&w) }
                     4 => a.op(0x33),                               // symbolic
                     _ => { a.push_u(2); a.push_u(3); a.op(0x01) }  // computed constant
@@ -383,10 +415,11 @@ pub fn gen_cfg(r: &mut Rng, flavour: usize) -> String {
     format!("{gas},{iter},{fork},{val},{mem},{}", r.below(2))
 }
 
-pub const FIXED: [&str; 14] = [
+pub const FIXED: [&str; 15] = [
     "6003565b00",                         // PUSH1 3 JUMP JUMPDEST STOP
     "600160ff5700",                       // JUMPI to a bad target
-    "64010000000956000000005b00",         // jump target >= 2^32 whose low bits name a JUMPDEST
+    "6401000000095600005b00",             // jump target >= 2^32 whose low bits name a JUMPDEST
+    "6001640100000009570000005b6001600055", // the same through JUMPI
     "33ff6001600055",                     // code after SELFDESTRUCT
     "5b6001600057",                       // JUMPI loop onto offset 0
     "5b600056",                           // JUMP loop
